@@ -230,3 +230,25 @@ Example C15_example_minimal :
   is_minimal (mkdfa [0;1] [0] [(0,[(0,1)]);(1,[(0,0)])] 0 [0;1] false) = false /\  (* two equivalent states *)
   is_minimal (mkdfa [0;1] [0] [(0,[(0,1)]);(1,[])] 0 [0] true) = false.            (* partial with a dead state *)
 Proof. vm_compute. repeat split. Qed.
+
+(* stretch (T2), stated only: the constructor models themselves are minimal for every non-empty
+   pattern over an alphabet of at least two symbols.  Not proved in general; the bounded instance
+   below (all patterns of length 1-4 over two symbols, 1-3 over three symbols, every flag) is computed. *)
+Definition C15_constructors_minimal_statement : Prop :=
+  forall syms p c, NoDup syms -> 2 <= length syms -> p <> [] -> word_over syms p ->
+    (forall ap, is_minimal (from_prefix_m syms p c ap) = true) /\
+    (forall ms, is_minimal (from_substring_m syms p c ms) = true) /\
+    is_minimal (from_subsequence_m syms p c) = true.
+
+Example C15_constructors_minimal_bounded :
+  let ok syms p :=
+      match p with
+      | [] => true
+      | _ :: _ =>
+        forallb (fun c =>
+          forallb (fun b => is_minimal (from_prefix_m syms p c b) && is_minimal (from_substring_m syms p c b)) [true; false]
+          && is_minimal (from_subsequence_m syms p c)) [true; false]
+      end in
+  forallb (ok [0;1]) (concat (words_upto [0;1] 4)) = true /\
+  forallb (ok [0;1;2]) (concat (words_upto [0;1;2] 3)) = true.
+Proof. vm_compute. split; reflexivity. Qed.
